@@ -43,7 +43,7 @@ def build(rng, casedir, index, tier, stable=None, size=None, nrec=None, tags="sa
     w.g = g
     w.coords = rgaf.Coords(g)
     w.gfa = g.write(os.path.join(casedir, vary_name(rng, "g.gfa") + (".gz" if rng.random() < 0.2 else "")), rng=rng,
-                    shuffle=rng.random() < 0.5, **({"with_seq": False} if long_nodes else {}))
+                    shuffle=rng.random() < 0.5, lex_so=rng.random() < 0.08, **({"with_seq": False} if long_nodes else {}))
     w.stable = rng.random() < 0.5 if stable is None else stable
     if nrec is None:
         nrec = rng.choice([1, 2, rng.randint(3, 25), rng.randint(10, 60)])
